@@ -5,7 +5,7 @@ import TaskModel.Finger.KeyLemmas
 `Props.C12`): what an invocation does to the marker `.task/timestamp/<key>`. -/
 namespace TaskModel.Finger
 
-variable (cfg : Cfg) (H : Bytes → Bytes) (pr : Proj)
+variable (cfg : Cfg) (H : Hashes) (pr : Proj)
 
 /-! ### the check of a timestamp task -/
 
